@@ -334,7 +334,7 @@ class Script:
         if self.lang == "cpp" and force_args is None:
             direct = [pn for pn, pt in m.params if pt[0] == "str" and pt[1] == "utf8"]
             risky = any(pt[0] in ("oslice", "ostr", "cb") or (pt[0] == "opt" and pt[1][0] in ("oslice", "ostr")) for _, pt in m.params)
-            if direct and not risky and r.random() < 0.3:
+            if direct and not risky and r.random() < (0.3 if len(direct) == 1 else 0.5):
                 bad = r.choice(direct)
                 args[bad] = {"data": r.choice([b"\xff", b"ok\xc3", b"\xed\xa0\x80", b"a\x80b", b"\xf4\x90\x80\x80", b"\xc0\xaf"]), "null": False}
                 self.counts[m.abi_name] = n          # Rust is never reached: the per-method call counter does not advance
